@@ -357,8 +357,11 @@ def run(ctx):
                 elif res.data.get(ordinary) != baseline:
                     ctx.violation("ordinary-field-disturbed", witness, "")
         # disabled introspection
+        aliased = '{ api: __schema { types { name } } t: __type(name: "%s") { name } tn: __typename %s }' % (ir.query, ordinary)
+        reserved_alias = "{ __plain: %s }" % ordinary
         for text in (introspection_query(), FOCUSED % {"name": ir.query, "dep": "", "ordinary": ordinary},
-                     "{ %s __typename }" % ordinary):
+                     "{ %s __typename }" % ordinary, aliased, reserved_alias,
+                     introspection_query().replace("__schema {", "meta: __schema {", 1)):
             witness = {"schema_sdl": case.sdl, "query": text, "disable_introspection": True}
             ctx.evaluated()
             ctx.count("disabled_queries")
@@ -370,9 +373,14 @@ def run(ctx):
                 ctx.violation("disabled:raises:%s" % type(e).__name__, witness, repr(e)[:300])
                 continue
             data = res.data if isinstance(res.data, dict) else {}
-            leaked = [k for k in ("__schema", "__type", "__typename") if data.get(k) is not None]
+            leaked = [k for k in ("__schema", "__type", "__typename", "api", "t", "tn", "meta") if data.get(k) is not None]
             if leaked:
                 ctx.violation("disabled:introspection-visible", witness, repr(leaked))
+            if text is reserved_alias and ordinary != "__typename" and isinstance(res.data, dict):
+                ctx.count("disabled_reserved_alias_queries")
+                if baseline is not None and data.get("__plain") != baseline:
+                    ctx.violation("disabled:ordinary-field-disturbed", witness, "alias __plain: %r vs %r" % (data.get("__plain"), baseline))
+                continue
             if ordinary in text.split("__type")[0] and ordinary != "__typename" and isinstance(res.data, dict):
                 if baseline is not None and data.get(ordinary) != baseline:
                     ctx.violation("disabled:ordinary-field-disturbed", witness, "%r vs %r" % (data.get(ordinary), baseline))
